@@ -10,6 +10,7 @@ import (
 	"regexp"
 	"strconv"
 	"strings"
+	"time"
 
 	"verifharness/client"
 	"verifharness/core"
@@ -54,6 +55,7 @@ type c20 struct {
 type c20Cached struct {
 	name, path string
 	body, resp []byte
+	at         time.Time // the server keeps an answer for five minutes: a replay much later proves nothing
 }
 
 func (c *c20) do(method, path string, body any) c20Resp {
@@ -692,15 +694,19 @@ func runC20(r *core.Run) {
 			in2 := take(2)
 			b2 := swapBody(in2, swapOuts(in2))
 			if rp := c.do("POST", "/v1/swap", b2); rp.status == 200 {
-				c.cached = append(c.cached, c20Cached{"swap", "/v1/swap", b2, append([]byte{}, rp.raw...)})
+				c.cached = append(c.cached, c20Cached{"swap", "/v1/swap", b2, append([]byte{}, rp.raw...), time.Now()})
 			}
 			if i%8 == 0 {
 				if _, _, mb, mr := mintHTTP(1023); mr != nil {
-					c.cached = append(c.cached, c20Cached{"mint", "/v1/mint/bolt11", mb, append([]byte{}, mr...)})
+					c.cached = append(c.cached, c20Cached{"mint", "/v1/mint/bolt11", mb, append([]byte{}, mr...), time.Now()})
 				}
 			}
 		}
 		for _, e := range c.cached {
+			if time.Since(e.at) > 2*time.Minute {
+				c.r.Inconclusive("late replay skipped: the machine is too slow for the cache lifetime of the server")
+				continue
+			}
 			for i := 0; i < 2; i++ {
 				rp := c.do("POST", e.path, e.body)
 				c.r.Eval(fmt.Sprintf("cache/%s/late-replay-%d", e.name, i), true)
@@ -734,7 +740,7 @@ func (c *c20) cache(rng *rand.Rand, name, path string, body, firstResp []byte, o
 	if firstResp == nil {
 		return
 	}
-	c.cached = append(c.cached, c20Cached{name, path, append([]byte{}, body...), append([]byte{}, firstResp...)})
+	c.cached = append(c.cached, c20Cached{name, path, append([]byte{}, body...), append([]byte{}, firstResp...), time.Now()})
 	rp := c.do("POST", path, body)
 	c.r.Eval("cache/"+name+"/identical-replay", true)
 	if rp.status != 200 || !bytes.Equal(rp.raw, firstResp) {
